@@ -13,8 +13,9 @@
      columns are table-qualified, only when every equality pairs a left with a right column.
      Otherwise the plan is a nested loop with the whole ON condition (CompiledPredicate:
      Model/PredImpl.v eval_expr).  With BARE column names the planner cannot tell the sides apart:
-     database.rs (key_indices) then keeps the left-right pairs and silently drops an equality
-     between two columns of the same input (finding class 3, still open).
+     database.rs (key_indices) then keeps the left-right pairs as hash keys and tests an equality
+     between two columns of the same input on the joined row (same_side_keys, since 824c6c8) with
+     owned_values_equal_with_coercion.
    * hash path: rows with a NULL key are skipped; build table on DefaultHasher over
      hash_owned_value_normalized (Int hashed as its f64 bit pattern, Float by its bit pattern with
      -0.0 folded onto 0.0), candidates confirmed by owned_values_equal_with_coercion.  The hash is
@@ -120,6 +121,14 @@ Definition pure_equi (e : expr) : bool := forallb is_key (conjuncts e).
 Definition hash_plan (lw : nat) (qual : bool) (e : expr) : bool :=
   pure_equi e && (negb qual || forallb (is_cross_key lw) (conjuncts e)).
 
+(* the `column = column` conjuncts whose two columns belong to the same input (indices into the joined row) *)
+Definition same_keys (lw : nat) (ks : list (nat * nat)) : list (nat * nat) := filter (fun k => is_nil (cross_key lw k)) ks.
+Definition same_side_match (ss : list (nat * nat)) (joined : row) : bool :=
+  forallb (fun k => match nth_error joined (fst k), nth_error joined (snd k) with
+                    | Some a, Some b => equal_coerce a b
+                    | _, _ => false
+                    end) ss.
+
 (* the test a pair has to pass to count as matched *)
 Definition hw_cond (lw : nat) (qual : bool) (on : option expr) (l r : row) : bool :=
   match on with
@@ -127,7 +136,7 @@ Definition hw_cond (lw : nat) (qual : bool) (on : option expr) (l r : row) : boo
   | Some e =>
       if hash_plan lw qual e
       then let ks := cross_keys lw (equi_keys e) in
-           if is_nil ks then true else hw_key_match ks l r
+           (if is_nil ks then true else hw_key_match ks l r) && same_side_match (same_keys lw (equi_keys e)) (l ++ r)
       else ev e (l ++ r)
   end.
 Definition is_some {X} (o : option X) : bool := match o with Some _ => true | None => false end.
@@ -161,9 +170,7 @@ Definition hw_model (q : query) (qual : bool) : hout :=
   end.
 
 (* ------------------------------------------------------------------ finding classes of the SQL-level cases *)
-(* open:
-   3: two tables, bare column names, ON a conjunction of `column = column` equalities one of which
-      compares two columns of the SAME input: that equality is dropped (a cross product if it is alone)
+(* open (joins of three or more tables only; two-table joins have no open class):
    5: three or more tables, a WHERE clause and table-qualified names (the filter pushed below a nested
       join is ignored by execute_nested_join_recursive)
    6: three or more tables and a `column = column` conjunct in some ON (nested hash joins are not executed)
@@ -171,22 +178,16 @@ Definition hw_model (q : query) (qual : bool) : hout :=
       execute_nested_join_recursive runs every nested join as an inner join, and a final RIGHT / FULL
       join pads its unmatched rows by the width of the first nested row
    fixed in /repo (kept as regression witnesses): 1 hash executors and Int / Float keys, 2 SELECT *,
-   3 (residual ON conjuncts beside a key), 4 WHERE over an outer join, 8 keys 0.0 / -0.0,
-   10 predicate pushdown / join reordering under table-qualified WHERE.  *)
+   3 ON conjuncts beside a key / same-side equalities dropped, 4 WHERE over an outer join,
+   8 keys 0.0 / -0.0, 10 predicate pushdown / join reordering under table-qualified WHERE.  *)
 Definition any_outer (js : list (jtype * option expr)) : bool :=
   existsb (fun j => left_outer (fst j) || right_outer (fst j)) js.
 Definition any_equi (js : list (jtype * option expr)) : bool :=
   existsb (fun j => match opt_on (fst j) (snd j) with Some e => negb (is_nil (equi_keys e)) | None => false end) js.
 
-Definition same_side_on (lw : nat) (qual : bool) (on : option expr) : bool :=
-  match on with
-  | Some e => negb qual && pure_equi e && negb (forallb (is_cross_key lw) (conjuncts e))
-  | None => false
-  end.
-
 Definition cls_sql (q : query) (qual : bool) : Z :=
   match q_tabs q, q_joins q with
-  | [(lw, L); (rw, R)], [(jt, on)] => if same_side_on lw qual (opt_on jt on) then 3 else 0
+  | [_; _], [_] => 0
   | _, js =>
       if is_some (q_where q) && qual then 5
       else if any_equi js then 6
